@@ -34,8 +34,8 @@ Proof. exact (conj chain_engine_mismatch_rejected chain_column_mismatch_rejected
 
 Theorem C20_unsupported_expression_rejected :
   (forall o t, op_supported (ekind_of (engine_of t)) o = false -> finish_default o t = Err EngineError) /\
-  (forall p c l r, is_join_identity l = false -> is_join_identity r = false -> engine_of l = engine_of r ->
-      supp_p (ekind_of (engine_of l)) p = false -> join_finish p c l r = Err EngineError).
+  (forall cf p c l r, is_join_identity l = false -> is_join_identity r = false -> engine_of l = engine_of r ->
+      supp_p (ekind_of (engine_of l)) p = false -> join_finish cf p c l r = Err EngineError).
 Proof. exact (conj unsupported_operation_rejected unsupported_join_predicate_rejected). Qed.
 
 Theorem C20_join_predicate_missing_column_rejected : forall p f lhs t op,
